@@ -245,6 +245,16 @@ def run_find(crystal, v):
     try:
         with contextlib.redirect_stderr(io.StringIO()), contextlib.redirect_stdout(io.StringIO()):
             if v["dims"] is not None:
+                if v.get("prior") is not None:
+                    # search -> replicate -> search: nothing remembered from searching the unit cell may leak into the supercell
+                    hk = {}
+                    if v["hints"] is not None:
+                        hk = {k: x for k, x in zip(("axisp1_idx", "axisp2_idx", "opoint_idx"), v["hints"]) if x is not None}
+                    try:
+                        with time_limit(180):
+                            find_pattern_in_structure(st, pt, atol=info["atol"], **hk)
+                    except Exception:
+                        pass
                 st = st.replicate(tuple(v["dims"]))
                 ev["kind"] = "replicated"
                 ev["dims"] = list(v["dims"])
